@@ -31,6 +31,16 @@ pub enum DirtyKind {
     StagedMod,
     Deleted,
     ModeChange,
+    /// `git mv` of a tracked file (porcelain code R)
+    Renamed,
+    /// a tracked regular file replaced by a symlink (porcelain code T)
+    TypeChange,
+    /// an untracked file whose name has a space, a quote and non-ASCII letters (porcelain quotes it)
+    WeirdName,
+    /// several hundred untracked files (a long porcelain listing)
+    ManyUntracked,
+    /// staged deletion (`git rm`)
+    StagedDelete,
     // the following must leave the tree clean
     IgnoredOnly,
     UntrackedInIgnoredDir,
@@ -45,7 +55,7 @@ impl DirtyKind {
             DirtyKind::IgnoredOnly | DirtyKind::UntrackedInIgnoredDir | DirtyKind::EmptyDir | DirtyKind::TouchOnly
         )
     }
-    pub const ALL: [DirtyKind; 11] = [
+    pub const ALL: [DirtyKind; 16] = [
         DirtyKind::Untracked,
         DirtyKind::UntrackedInSubdir,
         DirtyKind::Modified,
@@ -53,6 +63,11 @@ impl DirtyKind {
         DirtyKind::StagedMod,
         DirtyKind::Deleted,
         DirtyKind::ModeChange,
+        DirtyKind::Renamed,
+        DirtyKind::TypeChange,
+        DirtyKind::WeirdName,
+        DirtyKind::ManyUntracked,
+        DirtyKind::StagedDelete,
         DirtyKind::IgnoredOnly,
         DirtyKind::UntrackedInIgnoredDir,
         DirtyKind::EmptyDir,
@@ -609,7 +624,10 @@ impl World {
                 }
                 // combinations that would interfere with each other are not stacked
                 let touches_base = |k: &DirtyKind| {
-                    matches!(k, DirtyKind::Modified | DirtyKind::Deleted | DirtyKind::ModeChange | DirtyKind::TouchOnly)
+                    matches!(
+                        k,
+                        DirtyKind::Modified | DirtyKind::Deleted | DirtyKind::ModeChange | DirtyKind::TouchOnly | DirtyKind::Renamed | DirtyKind::TypeChange | DirtyKind::StagedDelete
+                    )
                 };
                 if touches_base(kind) && self.dirt.iter().any(touches_base) {
                     return Ok("skip: base.txt already touched".into());
@@ -635,6 +653,23 @@ impl World {
                     DirtyKind::ModeChange => {
                         use std::os::unix::fs::PermissionsExt;
                         io(std::fs::set_permissions(d.join("base.txt"), std::fs::Permissions::from_mode(0o755)))?
+                    }
+                    DirtyKind::Renamed => {
+                        self.git_ok(&["mv", "base.txt", "renamed base.txt"], None, None)?;
+                    }
+                    DirtyKind::TypeChange => {
+                        io(std::fs::remove_file(d.join("base.txt")))?;
+                        io(std::os::unix::fs::symlink("stage.txt", d.join("base.txt")))?;
+                    }
+                    DirtyKind::WeirdName => io(std::fs::write(d.join("sp ace \"q\" ünï\ttab.txt"), "w\n"))?,
+                    DirtyKind::ManyUntracked => {
+                        io(std::fs::create_dir_all(d.join("many")))?;
+                        for i in 0..300 {
+                            io(std::fs::write(d.join(format!("many/file-{i:04}.txt")), "m\n"))?;
+                        }
+                    }
+                    DirtyKind::StagedDelete => {
+                        self.git_ok(&["rm", "-q", "base.txt"], None, None)?;
                     }
                     DirtyKind::IgnoredOnly => io(std::fs::write(d.join("artifact.ign"), "i\n"))?,
                     DirtyKind::UntrackedInIgnoredDir => {
